@@ -21,6 +21,10 @@ CHECKS = {
  'C12': ('model_checking', 'Decode{Int*,Uint*,Bool,String} with a free prior target: reader success => same offset and stored value; literal null => offset after null, target untouched; otherwise error and target untouched.', '6.12'),
  'C13': ('model_checking', 'NextToken / NextTokenType / ReadBool / ReadNull on every byte string <= N against the fixed token table and literal matcher.', '6.13'),
  'C14': ('model_checking', 'Each Buffer-taking function called with an arbitrary used Buffer (arbitrary stack length/contents) gives the outcome of the nil-Buffer call, also when the handler re-enters any of the five functions with the same Buffer; an arbitrary slice covers every call history.', '6.14'),
+ 'C03': ('model_checking', 'ReadValue / ReadObject / ReadArray (fresh reader) on every byte string <= N and on tree-shape templates (duplicate, colliding and escaped keys, empty containers, nesting): success, offset and the whole value tree equal the reference decoder (maps with last duplicate winning); ReadObject/ReadArray reject every other value type including null. Numbers by contract (C04).', '6.3'),
+ 'C08': ('model_checking', 'A decoder composed from the public API with a nondeterministic choice of admissible call per token (typed readers, SkipValue, SkipValueFast, nested Handle*Values) finishes at the reference end offset whenever direct decoding succeeds, and its validating variant fails whenever it fails.', '6.8'),
+ 'C15': ('model_checking', 'Two- and three-call histories on one ValueReader over template documents (successes, syntax errors, depth-limit exits with the limit scaled to 3): each later result equals a fresh reader\'s, earlier results stay equal to their reference value also after the caller mutates later results.', '6.15'),
+ 'C16': ('model_checking', 'Every entry point leaves its input bytes equal to a snapshot (and no store ever targets an input object); appending functions keep an arbitrary destination prefix for every spare capacity; results do not depend on dirty scratch contents; returned strings/trees equal their reference value after inputs and buffers are overwritten.', '6.16'),
  'C17': ('model_checking', 'StdLibCompatibleString / StdLibCompatibleStringBytes on every byte string <= N (every 1-4 byte sequence class) equal the RFC 3629 sanitiser; idempotent; destination prefix kept.', '6.17'),
 }
 
